@@ -51,8 +51,12 @@ def main():
     ap.add_argument("--only", nargs="*")
     ap.add_argument("--also", nargs="*", default=[])
     ap.add_argument("--tier", default="quick")
+    ap.add_argument("--recheck", action="store_true",
+                    help="re-run only the checks (suite and demo verdicts are kept from the existing meta.json); <src> may be /verif/seeded")
     args = ap.parse_args()
     results = []
+    if args.recheck:
+        return recheck(args)
     for prop in sorted(os.listdir(args.src)):
         pd = os.path.join(args.src, prop)
         if not (os.path.isdir(pd) and prop.startswith("C")):
@@ -119,6 +123,46 @@ def main():
                 print("%s %-9s suite=%s demo=%s/%s by=%s" % (sid, meta.get("status"), meta.get("compiles_and_suite_passes"),
                       (meta.get("demo_unchanged") or {}).get("rc"), (meta.get("demo_changed") or {}).get("rc"),
                       ",".join(meta.get("detected_by", []))), flush=True)
+    return 0
+
+
+def recheck(args):
+    sd = os.path.join(V, "seeded")
+    for sid in sorted(os.listdir(sd)):
+        d = os.path.join(sd, sid)
+        if sid.startswith("revert-") or not os.path.isfile(os.path.join(d, "patch.diff")) or not os.path.isfile(os.path.join(d, "meta.json")):
+            continue
+        if args.only and sid not in args.only:
+            continue
+        meta = json.load(open(os.path.join(d, "meta.json")))
+        prop = meta.get("property") or sid.split("-")[0]
+        wt = "/tmp/seedre-%s-%d" % (sid, os.getpid())
+        sh(["git", "-C", REPO, "worktree", "add", "-f", "--detach", wt, "HEAD"])
+        try:
+            a = sh(["git", "-C", wt, "apply", os.path.join(d, "patch.diff")])
+            if a.returncode != 0:
+                a = sh(["git", "-C", wt, "apply", "--3way", os.path.join(d, "patch.diff")])
+            if a.returncode != 0:
+                print("%s patch-does-not-apply" % sid, flush=True)
+                continue
+            env = dict(os.environ, VERIF_REPO=wt)
+            det = {}
+            prev = [p for p in meta.get("detected_by", []) if p != prop]
+            for p in [prop] + [x for x in (args.also or prev) if x != prop]:
+                t0 = time.time()
+                c = sh([os.path.join(V, "check"), p, "--tier", args.tier], env=env, cwd=V)
+                keys = [l.strip()[:300] for l in c.stdout.splitlines() if l.strip().startswith("key=")]
+                det[p] = {"exit": c.returncode, "detected": c.returncode == 1, "keys": keys[:8], "wall_s": round(time.time() - t0, 1)}
+            meta["checks"] = det
+            meta["ran"] = ["VERIF_REPO=<worktree with patch.diff> ./check %s --tier %s" % (p, args.tier) for p in det]
+            meta["detected_by"] = [p for p, x in det.items() if x["detected"]]
+            meta["status"] = "detected" if meta["detected_by"] else "MISSED"
+            meta["rechecked_at_repo_head"] = sh(["git", "-C", REPO, "log", "-1", "--format=%h"]).stdout.strip()
+            json.dump(meta, open(os.path.join(d, "meta.json"), "w"), indent=1)
+            print("%s %-9s by=%s" % (sid, meta["status"], ",".join(meta["detected_by"])), flush=True)
+        finally:
+            sh(["git", "-C", REPO, "worktree", "remove", "--force", wt])
+            shutil.rmtree(wt, ignore_errors=True)
     return 0
 
 
